@@ -49,6 +49,8 @@ func main() {
 	write("ProxyCount.lean", genProxyCount())
 	write("Encode.lean", genEncode())
 	write("Forwarding.lean", genForwarding())
+	write("ProvisionErr.lean", genProvisionErr())
+	write("UsagePoolSync.lean", genUsagePoolSync())
 
 	// typed scan, cached by content hash of the scanned sources
 	h := hashTree(filepath.Join(repo, "modules", "caddyhttp"))
@@ -1295,6 +1297,360 @@ func genForwarding() string {
 	sb.WriteString("/-- `addForwardedHeaders`: literal keys of `req.Header.Del(…)` (error path) and `req.Header.Set(…)`, in source order -/\n")
 	sb.WriteString("def forwardedDelKeys : List (List UInt8) := " + leanBytesList(dels) + "\n")
 	sb.WriteString("def forwardedSetKeys : List (List UInt8) := " + leanBytesList(sets) + "\n")
+	sb.WriteString(footer)
+	return sb.String()
+}
+
+// ---------------------------------------------------------------- C01: provisionContext's rollback sees every error
+
+// genProvisionErr reads off caddy.go:provisionContext what its deferred rollback (`if err != nil { cancel(); … }`)
+// relies on: every return statement of the function itself (not of nested function literals) that reports an
+// error does so while the FUNCTION-LEVEL variable err is non-nil — either it returns that very variable, or it
+// sits under an `if err != nil` whose err is that variable — and the deferred closure reads that same variable.
+// Identifiers are resolved with go/parser's scope resolution, so a shadowing `if _, err := …; err != nil` is seen.
+func genProvisionErr() string {
+	fset, f := parseFile("caddy.go")
+	fd := findFunc(f, "", "provisionContext")
+	var rets []string
+	deferReads, found := false, false
+	if fd != nil && fd.Body != nil {
+		// the function-level `var err error`
+		var outer *ast.Object
+		for _, st := range fd.Body.List {
+			ds, ok := st.(*ast.DeclStmt)
+			if !ok {
+				continue
+			}
+			gd, ok := ds.Decl.(*ast.GenDecl)
+			if !ok {
+				continue
+			}
+			for _, sp := range gd.Specs {
+				if vs, ok := sp.(*ast.ValueSpec); ok {
+					for _, n := range vs.Names {
+						if n.Name == "err" && outer == nil {
+							outer = n.Obj
+						}
+					}
+				}
+			}
+		}
+		if fd.Type.Results != nil {
+			for _, fl := range fd.Type.Results.List {
+				for _, n := range fl.Names {
+					if n.Name == "err" && outer == nil {
+						outer = n.Obj
+					}
+				}
+			}
+		}
+		isOuterErrNotNil := func(c ast.Expr) bool {
+			be, ok := c.(*ast.BinaryExpr)
+			if !ok || be.Op != token.NEQ {
+				return false
+			}
+			x, ok1 := be.X.(*ast.Ident)
+			y, ok2 := be.Y.(*ast.Ident)
+			return ok1 && ok2 && y.Name == "nil" && x.Name == "err" && outer != nil && x.Obj == outer
+		}
+		var walk func(n ast.Node, guarded bool)
+		walk = func(n ast.Node, guarded bool) {
+			switch x := n.(type) {
+			case nil:
+				return
+			case *ast.FuncLit:
+				return // returns in there are not returns of provisionContext
+			case *ast.DeferStmt:
+				if fl, ok := x.Call.Fun.(*ast.FuncLit); ok {
+					all, any := true, false
+					ast.Inspect(fl.Body, func(y ast.Node) bool {
+						if id, ok := y.(*ast.Ident); ok && id.Name == "err" {
+							any = true
+							if outer == nil || id.Obj != outer {
+								all = false
+							}
+						}
+						return true
+					})
+					if any {
+						deferReads = all
+					}
+				}
+				return
+			case *ast.IfStmt:
+				if x.Init != nil {
+					walk(x.Init, guarded)
+				}
+				walk(x.Body, guarded || isOuterErrNotNil(x.Cond))
+				if x.Else != nil {
+					walk(x.Else, guarded)
+				}
+				return
+			case *ast.ReturnStmt:
+				if len(x.Results) == 2 {
+					if id, ok := x.Results[1].(*ast.Ident); ok && id.Name == "nil" {
+						return
+					}
+					ok := guarded
+					if id, isID := x.Results[1].(*ast.Ident); isID && id.Name == "err" && outer != nil && id.Obj == outer {
+						ok = true
+					}
+					if ok {
+						rets = append(rets, "covered")
+					} else {
+						rets = append(rets, fmt.Sprintf("UNCOVERED line %d: return …, %s", fset.Position(x.Pos()).Line, exprText(x.Results[1])))
+					}
+				}
+				return
+			case *ast.BlockStmt:
+				for _, st := range x.List {
+					walk(st, guarded)
+				}
+				return
+			case *ast.ForStmt:
+				walk(x.Body, guarded)
+				return
+			case *ast.RangeStmt:
+				walk(x.Body, guarded)
+				return
+			case *ast.SwitchStmt:
+				walk(x.Body, guarded)
+				return
+			case *ast.TypeSwitchStmt:
+				walk(x.Body, guarded)
+				return
+			case *ast.SelectStmt:
+				walk(x.Body, guarded)
+				return
+			case *ast.CaseClause:
+				for _, st := range x.Body {
+					walk(st, guarded)
+				}
+				return
+			case *ast.CommClause:
+				for _, st := range x.Body {
+					walk(st, guarded)
+				}
+				return
+			case *ast.LabeledStmt:
+				walk(x.Stmt, guarded)
+				return
+			}
+		}
+		walk(fd.Body, false)
+		found = outer != nil
+	}
+	var sb strings.Builder
+	sb.WriteString(header)
+	sb.WriteString("/-- caddy.go:provisionContext — one entry per return statement of the function itself that reports an error:\n    `covered` when the function-level variable `err` is known to be non-nil there (it is the value returned, or the\n    statement sits under an `if err != nil` on that variable; identifiers resolved by scope, so a shadowing\n    `if _, err := …` is NOT covered), else a description. The deferred rollback only runs when that variable is non-nil. -/\n")
+	sb.WriteString("def provisionErrorReturns : List String := " + leanStrList(rets) + "\n\n")
+	sb.WriteString("/-- every `err` the deferred rollback closure reads is that function-level variable -/\n")
+	sb.WriteString("def provisionRollbackReadsFunctionErr : Bool := " + strconv.FormatBool(deferReads) + "\n\n")
+	sb.WriteString("/-- the function and its function-level `err` were found -/\n")
+	sb.WriteString("def provisionErrFactsFound : Bool := " + strconv.FormatBool(found) + "\n")
+	sb.WriteString(footer)
+	return sb.String()
+}
+
+// ---------------------------------------------------------------- C04: lock regions and yield points of usagepool.go
+
+// genUsagePoolSync lists, per method of UsagePool in source order, every lock operation on the pool (`up`) or on an
+// entry (`upv`) and every verifYield(up, N, …) call: "Lock:up", "RUnlock:upv", "yield:3", deferred ones "defer:RUnlock:up".
+func genUsagePoolSync() string {
+	fset, f := parseFile("usagepool.go")
+	type ev struct {
+		pos int
+		s   string
+	}
+	var sb strings.Builder
+	sb.WriteString(header)
+	sb.WriteString("/-- usagepool.go: per method of UsagePool, in source order, every lock operation on the pool (`up`) or an entry\n    (`upv`) and every yield point `verifYield(up, N, …)` (the hook of build tag verif): `Lock:up`, `RUnlock:upv`,\n    `TryRLock:upv`, `yield:N`; deferred calls are prefixed `defer:`. -/\n")
+	sb.WriteString("def usagePoolSync : List (String × List String) := [\n")
+	var rows []string
+	if f != nil {
+		for _, d := range f.Decls {
+			fd, ok := d.(*ast.FuncDecl)
+			if !ok || fd.Body == nil || fd.Recv == nil || len(fd.Recv.List) != 1 || typeName(fd.Recv.List[0].Type) != "UsagePool" {
+				continue
+			}
+			var evs []ev
+			deferred := map[*ast.CallExpr]bool{}
+			ast.Inspect(fd.Body, func(n ast.Node) bool {
+				if ds, ok := n.(*ast.DeferStmt); ok {
+					deferred[ds.Call] = true
+				}
+				ce, ok := n.(*ast.CallExpr)
+				if !ok {
+					return true
+				}
+				pre := ""
+				if deferred[ce] {
+					pre = "defer:"
+				}
+				if id, ok := ce.Fun.(*ast.Ident); ok && id.Name == "verifYield" && len(ce.Args) >= 2 {
+					evs = append(evs, ev{int(ce.Pos()), pre + "yield:" + exprText(ce.Args[1])})
+				}
+				if se, ok := ce.Fun.(*ast.SelectorExpr); ok {
+					switch se.Sel.Name {
+					case "Lock", "RLock", "TryRLock", "TryLock", "Unlock", "RUnlock":
+						evs = append(evs, ev{int(ce.Pos()), pre + se.Sel.Name + ":" + exprText(se.X)})
+					}
+				}
+				return true
+			})
+			sort.Slice(evs, func(i, j int) bool { return evs[i].pos < evs[j].pos })
+			var xs []string
+			for _, e := range evs {
+				xs = append(xs, e.s)
+			}
+			rows = append(rows, fmt.Sprintf("  (%s, %s)", leanStr(fd.Name.Name), leanStrList(xs)))
+		}
+	}
+	_ = fset
+	sb.WriteString(strings.Join(rows, ",\n"))
+	sb.WriteString("\n]\n\n")
+
+	// the same events along every control-flow path of each method (if/else and early returns followed; a loop
+	// body is taken zero or one time), so that "acquired after a release" can be judged per path
+	evOf := func(n ast.Node) []string {
+		var evs []ev
+		deferred := map[*ast.CallExpr]bool{}
+		ast.Inspect(n, func(x ast.Node) bool {
+			if _, ok := x.(*ast.FuncLit); ok {
+				return false
+			}
+			if ds, ok := x.(*ast.DeferStmt); ok {
+				deferred[ds.Call] = true
+			}
+			ce, ok := x.(*ast.CallExpr)
+			if !ok {
+				return true
+			}
+			pre := ""
+			if deferred[ce] {
+				pre = "defer:"
+			}
+			if id, ok := ce.Fun.(*ast.Ident); ok && id.Name == "verifYield" && len(ce.Args) >= 2 {
+				evs = append(evs, ev{int(ce.Pos()), pre + "yield:" + exprText(ce.Args[1])})
+			}
+			if se, ok := ce.Fun.(*ast.SelectorExpr); ok {
+				switch se.Sel.Name {
+				case "Lock", "RLock", "TryRLock", "TryLock", "Unlock", "RUnlock":
+					evs = append(evs, ev{int(ce.Pos()), pre + se.Sel.Name + ":" + exprText(se.X)})
+				}
+			}
+			return true
+		})
+		sort.Slice(evs, func(i, j int) bool { return evs[i].pos < evs[j].pos })
+		var xs []string
+		for _, e := range evs {
+			xs = append(xs, e.s)
+		}
+		return xs
+	}
+	type path struct {
+		evs  []string
+		done bool // ended by return / continue / break
+	}
+	var stmtPaths func(st ast.Stmt, in []path) []path
+	listPaths := func(list []ast.Stmt, in []path) []path {
+		cur := in
+		for _, st := range list {
+			cur = stmtPaths(st, cur)
+		}
+		return cur
+	}
+	extend := func(in []path, evs []string, done bool) []path {
+		var out []path
+		for _, p := range in {
+			if p.done {
+				out = append(out, p)
+				continue
+			}
+			out = append(out, path{append(append([]string{}, p.evs...), evs...), done})
+		}
+		return out
+	}
+	stmtPaths = func(st ast.Stmt, in []path) []path {
+		switch x := st.(type) {
+		case *ast.IfStmt:
+			cur := in
+			if x.Init != nil {
+				cur = extend(cur, evOf(x.Init), false)
+			}
+			cur = extend(cur, evOf(x.Cond), false)
+			thenP := listPaths(x.Body.List, cur)
+			var elseP []path
+			switch e := x.Else.(type) {
+			case nil:
+				elseP = cur
+			case *ast.BlockStmt:
+				elseP = listPaths(e.List, cur)
+			default:
+				elseP = stmtPaths(e, cur)
+			}
+			// finished paths of `cur` appear in both; keep them once
+			var out []path
+			seen := map[string]bool{}
+			for _, p := range append(thenP, elseP...) {
+				k := strings.Join(p.evs, "|") + fmt.Sprint(p.done)
+				if !seen[k] {
+					seen[k] = true
+					out = append(out, p)
+				}
+			}
+			return out
+		case *ast.BlockStmt:
+			return listPaths(x.List, in)
+		case *ast.ForStmt, *ast.RangeStmt:
+			var body *ast.BlockStmt
+			if f, ok := x.(*ast.ForStmt); ok {
+				body = f.Body
+			} else {
+				body = x.(*ast.RangeStmt).Body
+			}
+			once := listPaths(body.List, in)
+			// `continue` / `break` / falling off the body all go on behind the loop
+			var out []path
+			seen := map[string]bool{}
+			for _, p := range append(append([]path{}, in...), once...) {
+				q := path{p.evs, false}
+				k := strings.Join(q.evs, "|")
+				if !seen[k] {
+					seen[k] = true
+					out = append(out, q)
+				}
+			}
+			return out
+		case *ast.ReturnStmt:
+			return extend(in, evOf(x), true)
+		case *ast.BranchStmt:
+			return extend(in, nil, true)
+		case *ast.LabeledStmt:
+			return stmtPaths(x.Stmt, in)
+		default:
+			return extend(in, evOf(st), false)
+		}
+	}
+	sb.WriteString("/-- the same events along every control-flow path of each method (if/else and early returns followed, a loop body\n    taken zero times or once) -/\n")
+	sb.WriteString("def usagePoolPaths : List (String × List (List String)) := [\n")
+	var prow []string
+	if f != nil {
+		for _, d := range f.Decls {
+			fd, ok := d.(*ast.FuncDecl)
+			if !ok || fd.Body == nil || fd.Recv == nil || len(fd.Recv.List) != 1 || typeName(fd.Recv.List[0].Type) != "UsagePool" {
+				continue
+			}
+			ps := listPaths(fd.Body.List, []path{{nil, false}})
+			var ls []string
+			for _, p := range ps {
+				ls = append(ls, leanStrList(p.evs))
+			}
+			prow = append(prow, fmt.Sprintf("  (%s, [%s])", leanStr(fd.Name.Name), strings.Join(ls, ",\n     ")))
+		}
+	}
+	sb.WriteString(strings.Join(prow, ",\n"))
+	sb.WriteString("\n]\n")
 	sb.WriteString(footer)
 	return sb.String()
 }
